@@ -110,7 +110,20 @@ def where_filter(ctx):
     def mismatch(e, s, tr):
         return not s['env']['name'][0]
 
-    it = absint.Interp(fn, [('getattr(%s, name) != value' % iv, mismatch), ('getattr(%s, name) == value' % iv, lambda e, s, tr: s['env']['name'][0])],
+    # a raw copy of the value may sit in the instance dictionary (a referential attribute loaded from text); what counts is what getattr reads
+    def raw_present(e, s, tr):
+        return s.get('raw_present', False)
+
+    def raw_cmp(neg_):
+        def f(e, s, tr):
+            tr.append('raw-read')
+            m_ = s.get('raw_match', False)
+            return (not m_) if neg_ else m_
+        return f
+    it = absint.Interp(fn, [('getattr(%s, name) != value' % iv, mismatch), ('getattr(%s, name) == value' % iv, lambda e, s, tr: s['env']['name'][0]),
+                            ('name in %s.__dict__' % iv, raw_present), ('name not in %s.__dict__' % iv, lambda e, s, tr: not raw_present(e, s, tr)),
+                            ('%s.__dict__[name] != value' % iv, raw_cmp(True)), ('%s.__dict__[name] == value' % iv, raw_cmp(False)),
+                            ('%s.__dict__.get(name) != value' % iv, raw_cmp(True)), ('%s.__dict__.get(name) == value' % iv, raw_cmp(False))],
                        [('yield %s' % iv, lambda e, s, tr: tr.append('yield'))],
                        iters=[('iter(items)', lambda e, s, tr: [(m, i) for i, m in enumerate(s['matches'])]),
                               ('items', lambda e, s, tr: [(m, i) for i, m in enumerate(s['matches'])]),
@@ -128,8 +141,21 @@ def where_filter(ctx):
         except (absint._Continue, absint._Break):
             pass
         want = ['yield'] if all(matches) else []
+        tr = [t_ for t_ in tr if t_ != 'raw-read']
         r.check(tr == want, 'components %s -> %s' % (list(matches), 'yield' if want else 'skip'), inn, construct=Q, key='where %s' % (matches,),
                 msg='WhereEqual with component matches %s %s the instance' % (list(matches), 'drops' if want else 'yields'))
+    for matches in ([True], [False], [True, True]):
+        tr = []
+        try:
+            it.block(o.body, {'matches': list(matches), 'raw_present': True, 'raw_match': not all(matches)}, tr)
+        except (absint._Continue, absint._Break):
+            pass
+        want = ['yield'] if all(matches) else []
+        got_ = [t_ for t_ in tr if t_ != 'raw-read']
+        r.check(got_ == want, 'a stale copy in the instance dictionary does not change the filter (components %s)' % list(matches), inn, construct=Q,
+                key='where-raw %s' % (matches,),
+                msg='WhereEqual compares the raw value stored in the instance dictionary instead of what the attribute reads as: with a stale stored '
+                    'copy and component matches %s the instance is %s' % (list(matches), 'dropped' if want else 'yielded'))
     we = repo.func(M + 'where_eq')
     r.check(pm.contains('return WhereEqual(kwargs)', we), 'where_eq wraps its keywords', we, construct=M + 'where_eq', key='where_eq',
             msg='where_eq does not return WhereEqual(kwargs)')
